@@ -406,7 +406,7 @@ impl Deb822 {
                     ));
                     current = vec![];
                 }
-                COMMENT | ERROR => {
+                COMMENT | ERROR | NEWLINE => {
                     current.push(c);
                 }
                 EMPTY_LINE => {
@@ -759,7 +759,7 @@ impl Paragraph {
                     entries.push((current, Entry::cast(c.as_node().unwrap().clone()).unwrap()));
                     current = vec![];
                 }
-                ERROR | COMMENT => {
+                ERROR | COMMENT | NEWLINE => {
                     current.push(c);
                 }
                 _ => {}
